@@ -35,6 +35,36 @@ def conv(typ, v, sc=1.0):
 TYPES = ["int", "float", "np64", "np32", "npint", "Q", "np_u8", "arr0d"]
 KEYSETS = [["a", "b", "c", "d"], [0, 1, 2, 3], [("t", 1), ("t", 2), ("u", 1)], ["x", 7, ("k",), 2.5],
            list(range(9)), [f"label{j}" for j in range(7)], ["a", "b"]]
+# unusual but legal hashable keys, mixed in one tracker (an "unknown" label None, booleans, the empty string / tuple, nested tuples,
+# frozensets, infinities, big integers, NumPy integers, bytes); the first seven sets are pairwise distinct under ==, the last one
+# holds keys that are EQUAL under == (1 / True / 1.0 / np.int64(1), 0 / 0.0 / False): they are ONE key, exactly as in a Python dict
+# (the update dicts, the reference model and the expected key list are all plain dict / == based, so they collapse the same way)
+UNUSUAL_KEYSETS = [[None, "cat", "dog"], [None, 1], ["cat", None], [True, 0, "", (), None],
+                   [(), ("a",), ((1, 2), None), frozenset(), frozenset({1, 2}), (None,)],
+                   [float("inf"), -float("inf"), 10 ** 30, -1, np.int64(7), 2.5, -(2 ** 63)],
+                   [False, None, np.int64(3), "", (None, None), b"b", "None"],
+                   ["z", None, 1, True, 1.0, np.int64(1), 0, 0.0, False]]
+
+
+def samekey(a, b):
+    """The dict notion of "same key" (hash first: NumPy integer keys broadcast == over tuple keys)."""
+    return a is b or (hash(a) == hash(b) and bool(a == b))
+
+
+def key_class(k):
+    if k is None:
+        return "None"
+    if isinstance(k, (bool, np.bool_)):
+        return "bool"
+    if isinstance(k, np.generic):
+        return "numpy-scalar"
+    if isinstance(k, float) and math.isinf(k):
+        return "inf"
+    if isinstance(k, int) and abs(k) >= 2 ** 62:
+        return "big-int"
+    if isinstance(k, (str, tuple, frozenset, bytes)) and len(k) == 0:
+        return "empty-" + type(k).__name__
+    return type(k).__name__
 
 
 def finite(v):
@@ -48,12 +78,16 @@ def main(run):
     from ixai.utils.tracker import MultiValueTracker, WelfordTracker, ExponentialSmoothingTracker
     run.rule = ("random histories (length <= 60) of update dicts with changing key sets (late keys, omitted keys, empty dicts; "
                 "str/int/tuple/mixed keys) x value types {int,float,np.float64,np.float32,np.int64,Q} x magnitude scales {1, 2^-40, 2^-60, 2^40} x base tracker "
-                "{Welford, ExponentialSmoothing(alpha)}; after every update get() is compared with an independent per-key "
+                "{Welford, ExponentialSmoothing(alpha)}; about a third of the histories use unusual legal hashable keys mixed in one "
+                "tracker (None, True/False, '', (), nested tuples, frozensets, +-inf, 10**30, np.int64, bytes, and keys equal under == "
+                "such as 1/True/1.0 which are one key as in a dict); after every update get() is compared with an independent per-key "
                 "reference (== for Q and int/Welford-free cases, tolerance otherwise), N and key persistence asserted, "
                 "get_normalized() checked for sum=1 / ratio preservation / zero-sum -> all 0.0 with no NaN/inf and a silent "
                 "NumPy FP-exception recorder; differential twin trackers assert independence between keys; evaluations = "
                 "monitor evaluations; non-trivial = history with >= 2 keys whose key set changed, distinct by draw")
-    run.assumptions = ["values are finite real numbers; keys are hashable and pairwise distinct under =="]
+    run.assumptions = ["values are finite real numbers; keys are hashable with a reflexive == (no NaN keys); keys equal under == "
+                       "(1, True, 1.0) are the same key, as in a Python dict"]
+    run.require_count("unusual-key-histories", "normalized-states-with-None-key", "normalized-states-with-unusual-keys")
     run.require("ixai/utils/tracker/multi_value.py:MultiValueTracker.update",
                 "ixai/utils/tracker/multi_value.py:MultiValueTracker.get_normalized")
     rnd = random.Random(run.shard_seed)
@@ -63,7 +97,12 @@ def main(run):
     np.seterrcall(lambda kind, flag: fp_events.append(kind) if "underflow" not in kind else None)
     for h in range(N_HIST[run.tier]):
         typ = TYPES[h % len(TYPES)]
-        keys = rnd.choice(KEYSETS)
+        unusual = rnd.random() < 0.35
+        keys = rnd.choice(UNUSUAL_KEYSETS if unusual else KEYSETS)
+        if unusual:
+            run.count("unusual-key-histories")
+            if keys is UNUSUAL_KEYSETS[-1]:
+                run.count("aliasing-key-histories")
         dyn = rnd.random() < 0.5
         if typ == "Q":
             alpha = rnd.choice([Q(1, 3), Q(1, 2), Q(1), Q(1, 1000)])
@@ -85,6 +124,7 @@ def main(run):
             n = 620          # a key supplied a few times early on and then ABSENT for hundreds of updates (zero-filled all along)
             mode = "long-absence"
         seen_keys = []
+        seen_index = {}
         changed = False
         hist = []
         ok_hist = True
@@ -98,7 +138,7 @@ def main(run):
                     upd[keys[1]] = rnd.randrange(1, 21)
             elif mode == "spike":        # one huge transient value early on, ordinary magnitudes afterwards (sums must not remember the spike)
                 ks = [k for k in keys if rnd.random() < 0.7] or [keys[0]]
-                upd = {k: (rnd.choice([1, -1]) * 3 * 10 ** 9 if t == 1 and k == ks[0] else rnd.randrange(1, 21)) for k in ks}
+                upd = {k: (rnd.choice([1, -1]) * 3 * 10 ** 9 if t == 1 and samekey(k, ks[0]) else rnd.randrange(1, 21)) for k in ks}
             elif mode == "zero-sum-pairs":
                 v = rnd.randrange(-20, 21)
                 upd = {keys[0]: v, keys[1]: -v}
@@ -145,11 +185,13 @@ def main(run):
             else:
                 (mt_update or mt.update)(dict(real))
             # twin: same values for keys[0], different history for the others
-            twin.update({k: (v if k == keys[0] else conv(typ, 3, sc)) for k, v in real.items()})
+            twin.update({k: (v if samekey(k, keys[0]) else conv(typ, 3, sc)) for k, v in real.items()})
             ref.add({k: Q(tofrac(v)) for k, v in real.items()})
             if set(upd) - set(seen_keys):
                 changed = changed or bool(seen_keys)
-            seen_keys += [k for k in upd if k not in seen_keys]
+            for k in upd:            # (dict membership: hash first, == only on equal hashes - NumPy keys broadcast == over tuple keys)
+                seen_index.setdefault(k, k)
+            seen_keys = list(seen_index)
             if mode == "long-absence" and not (t in (3, 6) or 254 <= t <= 262 or 510 <= t <= 518 or t >= 598):
                 continue            # (long histories are read around the counter values 256 / 512 and at the end only: the reference re-sums the history)
             if h % 4 == 2 and t != n - 1 and rnd.random() > 0.2:
@@ -207,6 +249,10 @@ def main(run):
                     ok_hist = False
                     break
             run.ok(kind="normalized")
+            if unusual and len(seen_keys) >= 2:
+                run.count("normalized-states-with-unusual-keys")
+                for kc in sorted({key_class(k) for k in seen_keys}):
+                    run.count("normalized-states-with-%s-key" % kc)
             tot = sum(exp.values(), Q(0))
             # "zero sum" is a statement about the values the tracker actually holds: exact in Q mode, the float sum otherwise
             # (float means of inputs whose exact means cancel need not cancel: that is not the zero-sum case)
